@@ -10,8 +10,6 @@ import (
 	"testing"
 	"time"
 
-	sdk "github.com/cosmos/cosmos-sdk/types"
-
 	"github.com/bandprotocol/chain/v3/pkg/tss"
 
 	"verif/harness/pbt"
@@ -23,7 +21,7 @@ func TestC02AdvLeaves(t *testing.T) {
 		t.Skip("development aid")
 	}
 	c := advCase{NVals: 2, SecondGroup: true, Cfg: make([]int, nCfg)}
-	w := &world{c: c, v: &pbt.Verdict{}, privs: map[uint64]map[string]tss.Scalar{}, dkgs: map[uint64]map[string]*dkgMember{}, props: map[uint64]int{}, propMsgs: map[uint64]sdk.Msg{}}
+	w := &world{c: c, v: &pbt.Verdict{}, privs: map[uint64]map[string]tss.Scalar{}, dkgs: map[uint64]map[string]*dkgMember{}, props: map[uint64][]*comp{}}
 	ch, err := sim.New(w.buildConfig(), 0)
 	if err != nil {
 		t.Fatal(err)
